@@ -213,3 +213,34 @@ Definition unwritten_read (p : prog) (s : state) : bool :=
 Definition explore_code (p : prog) : nat * list label :=
   let '(s, ls) := greedy (step_budget p) p (init p) [] in
   if all_done s then (0, []) else if unwritten_read p s then (1, ls) else (2, ls).
+
+(* ---- validation of the semantics against real executions: the event log of an instrumented run, turned into labels by
+   the harness, must be a run of Sem2 on the observed program, and after letting blocked waits leave through their ctx
+   branch and finished threads return, the model's outcome must be the outcome the real injector had ---- *)
+Definition leave_labels (t : nat) : list label := [LWaitCtx t; LFin t].
+Fixpoint settle (fuel : nat) (p : prog) (s : state) : state :=
+  match fuel with
+  | 0 => s
+  | S f => match first_step p s (flat_map leave_labels (seq 0 (length (p_threads p)))) with
+           | Some (_, s') => settle f p s'
+           | None => s
+           end
+  end.
+(* 0: returned nil; 100 + n: returned provider n's error; 2: returned a context error; 3: did not return *)
+Definition outcome (s : state) : nat :=
+  match nth_error (s_thr s) 0 with
+  | Some (TDone None) => 0
+  | Some (TDone (Some (EProv n))) => 100 + n
+  | Some (TDone (Some _)) => 2
+  | _ => 3
+  end.
+Definition goroutines_left (s : state) : bool := existsb (fun x => match x with TRun _ _ => true | _ => false end) (tl (s_thr s)).
+(* 0 = agreement; 1 = the label sequence is not a run of the model; 2 = outcome differs; 3 = leaked-goroutine verdict differs *)
+Definition trace_code (p : prog) (ls : list label) (expect : nat) (leak : bool) : nat :=
+  match run p (init p) ls with
+  | None => 1
+  | Some s => let s' := settle (2 * length (p_threads p) + 2) p s in
+              if negb (Nat.eqb (outcome s') expect) then 2
+              else if Nat.eqb expect 3 then 0
+              else if Bool.eqb (goroutines_left s') leak then 0 else 3
+  end.
